@@ -874,7 +874,7 @@ def _scatter_set(arr, idx, value):
     r = ax.comps[0]
     name = idx.name
     selector = K.atom(f"sel.{name}", r)
-    W.ctx.idempotent = getattr(W.ctx, "idempotent", set()) | {f"sel.{name}"}
+    W.ctx.idempotent.add(f"sel.{name}")
     vax = value.axes[0]
     m = {}
     if not vax.unit:
